@@ -33,6 +33,7 @@ from dask_expr._expr import (
     Expr,
     Index,
     Projection,
+    RenameAxis,
     RenameFrame,
     RenameSeries,
     ResetIndex,
@@ -191,7 +192,8 @@ class ShuffleReduce(Expr):
                 chunked = ResetIndex(self.frame, drop=False, name=self.frame.name)
             else:
                 chunked = ResetIndex(self.frame, drop=False)
-            if split_by == [None]:
+            unnamed_index = split_by == [None]
+            if unnamed_index:
                 split_by = ["index"]
         elif is_index_like(self.frame._meta) or is_series_like(self.frame._meta):
             chunked = ToFrame(self.frame, name=columns[0])
@@ -244,6 +246,9 @@ class ShuffleReduce(Expr):
         # Reset the index if we we used it for shuffling
         if split_by_index:
             shuffled = SetIndexBlockwise(shuffled, split_by, True, None)
+            if unnamed_index:
+                # "index" was only the placeholder label of reset_index
+                shuffled = RenameAxis(shuffled, None)
 
         # Convert back to Series if necessary
         if self.shuffle_by_index is not False:
@@ -1403,7 +1408,9 @@ class ValueCounts(ReductionConstantDim):
 
     @property
     def split_by(self):
-        return self.frame._meta.name
+        # The values that are counted are the index of the chunks; a list so
+        # that an unnamed (or falsy-named) series is not mistaken for "no key"
+        return [self.frame._meta.name]
 
     @property
     def chunk_kwargs(self):
@@ -1429,7 +1436,8 @@ class ValueCounts(ReductionConstantDim):
 
     @functools.cached_property
     def split_by(self):
-        return self.frame._meta.name
+        # see above: a list, so that a falsy name is not read as "no key"
+        return [self.frame._meta.name]
 
     def _divisions(self):
         if self.sort:
